@@ -357,4 +357,49 @@ C19_Comp ==
         (h.op = "clean" /\ h.src = Commits[1].src /\ h.cfg = cfg) => NonWs(out) = NonWs(h.out)   \* composition
 
 C19 == C19_Idem /\ C19_Comp
+
+(***************************************************************************)
+(* Vacuity guard.  App_Cxx is the antecedent of Cxx: the state is an       *)
+(* observation point of the property, the document lies in the property's  *)
+(* space (not lenient, right layout) and the case is not trivial (something *)
+(* is ready / listed / paired ...).  The checks evaluate App_Cxx with TLC   *)
+(* on a sample of every job and report how often it held.                   *)
+(***************************************************************************)
+App_C01 == pc \in {"returned", "crashed", "failed"}
+App_C02 == AtCleanReturn /\ ~DL.lenient /\ ReadyElems(DL) # {}
+App_C03 == App_C02
+App_C04 == AtCleanReturn /\ ~DL.lenient /\ ReadyElems(DL) = {}
+App_C05 == \/ (pc = "eval_done" /\ op = "eval_time" /\ TimeDecision(EvalElem(cfg.tl, Str_to), cfg) # "lenient")
+           \/ (AtCleanReturn /\ ~DL.lenient /\ \E e \in DL.elems : e.p.name = cfg.tl)
+App_C06 == \/ (pc = "eval_done" /\ op = "eval_marker" /\ MarkerDecision(EvalElem(cfg.rm, Str_name), cfg) # "lenient")
+           \/ (AtCleanReturn /\ ~DL.lenient /\ \E e \in DL.elems : e.p.name = cfg.rm)
+           \/ (pc = "cli_done" /\ CfgOfOpts(res, cfg))
+App_C07 == AtTokens /\ Len(toks) >= 2
+App_C08 == AtTokens /\ RefSpans(file, cfg.ds, cfg.de) # <<>>
+App_C09 == \/ (pc = "tags_done" /\ \E i \in 1..Len(tags) :
+                 LET p == RefParse(TagBody(tags[i].text, cfg.ds, cfg.de), cfg.ds, cfg.de) IN p.cls = "ok" /\ p.attrs # <<>>)
+           \/ App_C02
+App_C10 == pc \in {"tree_done", "treed"} /\
+           LET tg == ObsTagDescs(file, toks, cfg.ds, cfg.de) IN
+           (~\E i \in 1..Len(tg) : tg[i].cls = "lenient" \/ (tg[i].cls = "ok" /\ OddName(tg[i].name))) /\ StackPairs(tg) # {}
+App_C11 == AtCleanReturn /\ ~DL.lenient /\ BlockStyle(DL) /\ WrapperLinesClean(LastSrc, DL)
+           /\ \E e \in DL.elems : e.uw /\ e.st = "ready"
+App_C12 == AtCleanReturn /\ ~DL.lenient /\ BlockStyle(DL) /\ WrapperLinesClean(LastSrc, DL) /\ RegularNesting(LastSrc, DL)
+           /\ \E u \in UnwrappedElems(DL) : DedentCols(LastSrc, DL, u) # {} /\ InnerLines(u) # {}
+App_C13 == AtCleanReturn /\ ~DL.lenient /\ BlockStyle(DL) /\ ~HasReadyUnwrap(DL) /\ ReadyElems(DL) # {}
+App_C14 == AtCleanReturn /\ ~DL.lenient /\ ReadyElems(DL) # {} /\ \A e \in UnwrappedElems(DL) : e.alone
+App_C15 == AtListReturn /\ op \in {"list", "list_json"} /\ ~D.lenient /\ C15Space(file, D) /\ ReadyRegions(D) # <<>>
+App_C16 == AtListReturn /\ ~D.lenient /\ C16Space(file, D) /\ (\A i \in 1..Len(file) : file[i] # CR) /\ AllRegions(D) # <<>>
+App_C17 == AtListReturn /\ op = "list_all_json" /\ ~D.lenient /\ C15Space(file, D)
+           /\ \E k \in 1..Len(AllRegions(D)) : AllRegions(D)[k][2] = "Pending"
+App_C18 == pc = "returned" /\ op \in {"clean", "list_json"} /\
+           \E i \in 1..(Len(hist) - 1) :
+              LET h == hist[i] IN
+              h.op = op /\ h.cfg.now = cfg.now /\ h.cfg.targets = cfg.targets /\ h.cfg.off = cfg.off
+              /\ ~SameSpelling(h.cfg, cfg) /\ CleanlySpelled(h.src, h.cfg, cfg) /\ Respell(h.src, h.cfg, cfg) = LastSrc
+              /\ h.out # h.src
+App_C19 == C19_CompSpace /\ Len(Commits) >= 2 /\ Commits[1].src # out
+           /\ \E i \in 1..Len(hist) : hist[i].op = "clean" /\ hist[i].src = Commits[1].src /\ hist[i].cfg = cfg
+App_C20 == pc = "cli_done" /\ CfgOfOpts(res, cfg)
+           /\ \E i \in 1..(Len(hist) - 1) : hist[i].op = LibOpOf(res) /\ hist[i].src = hist[Len(hist)].src /\ hist[i].cfg = cfg
 =============================================================================
